@@ -471,7 +471,19 @@ func (e *Env) evalAddr(x ast.Expr) SV {
 	case *ast.ParenExpr:
 		return e.evalAddr(n.X)
 	case *ast.SelectorExpr:
+		if g := e.ghostOf(n); g != nil {
+			if g.isMap {
+				return e.ghostMapEntry(g, zeroSV(g.keyT))
+			}
+			return g.ptr
+		}
 		base := e.eval(n.X, nil)
+		if _, isPtr := base.ty.Underlying().(*types.Pointer); !isPtr {
+			if _, isStruct := base.ty.Underlying().(*types.Struct); isStruct {
+				// field of a struct that is itself addressable: &(x.a).b
+				base = e.evalAddr(n.X)
+			}
+		}
 		if p, ok := base.ty.Underlying().(*types.Pointer); ok {
 			st := p.Elem().Underlying().(*types.Struct)
 			_, path := findField(st, n.Sel.Name)
@@ -852,6 +864,53 @@ func (e *Env) evalCall(n *ast.CallExpr, hint types.Type) SV {
 				c = Not(c)
 			}
 			return scalarSV(a.ty, Ite(c, a.t(), b.t()))
+		case "arrUpd", "arrSame":
+			// arrUpd(s, off, v0, v1, ...): the whole backing array of slice s equals its old value with
+			// v_k stored at element off+k of s; arrSame(s): the backing array is unchanged. Quantifier-free.
+			sl := e.eval(n.Args[0], nil)
+			if _, ok := sl.ty.Underlying().(*types.Slice); !ok {
+				efail("%s: first argument must be a slice", name)
+			}
+			et := elemType(sl.ty)
+			if len(leavesOf(et)) != 1 {
+				efail("%s: only slices of scalars are supported", name)
+			}
+			li := resolveLoc(sliceElemAddr(sl, mkBV(0, 64)))
+			if !li.backing || len(li.idxs) != 1 {
+				efail("%s: slice must have a plain backing array", name)
+			}
+			old := e.st
+			if e.oldSt != nil {
+				old = e.oldSt
+			}
+			key, srt := li.key(li.lo), li.regionSort(li.lo)
+			now := Select(e.st.region(key, srt), sl.l[0])
+			want := Select(old.region(key, srt), sl.l[0])
+			if name == "arrUpd" {
+				off := toI64(e.eval(n.Args[1], types.Typ[types.Int]))
+				k := 0
+				for _, a := range n.Args[2:] {
+					if ce, ok := a.(*ast.CallExpr); ok {
+						if id, ok := ce.Fun.(*ast.Ident); ok && id.Name == "at" && len(ce.Args) == 1 {
+							// at(off): continue storing at a new offset
+							off = toI64(e.eval(ce.Args[0], types.Typ[types.Int]))
+							k = 0
+							continue
+						}
+					}
+					v := e.eval(a, et)
+					if v.t().sort != srt.elem.elem {
+						efail("arrUpd: value %d has the wrong type", k)
+					}
+					want = Store(want, BvBin("bvadd", BvBin("bvadd", sl.l[1], off), mkBV(int64(k), 64)), v.t())
+					k++
+				}
+			}
+			return scalarSV(boolT, Eq(now, want))
+		case "sameArray": // sameArray(s1, s2): the two slices share their backing array
+			a := e.eval(n.Args[0], nil)
+			b := e.eval(n.Args[1], nil)
+			return scalarSV(boolT, Eq(a.l[0], b.l[0]))
 		case "typeis": // typeis(ifaceValue, T): dynamic type test
 			v := e.eval(n.Args[0], nil)
 			ty := e.resolveType(n.Args[1])
@@ -881,6 +940,19 @@ func (e *Env) evalCall(n *ast.CallExpr, hint types.Type) SV {
 	}
 	if sf := e.x.specFunc(pk, name); sf != nil {
 		d := e.x.declSpec(sf)
+		if sf.opaque && e.x.tcontract != nil && contains(e.x.tcontract.reveals, name) && len(n.Args) == len(sf.ptypes) {
+			// revealed: evaluate the body in place
+			tp := e.x.typesPkg(sf.pkg)
+			ne := &Env{x: e.x, pkg: tp, vars: map[string]SV{}, inSpec: true}
+			ai := 0
+			for _, f := range sf.params {
+				for _, nm := range f.Names {
+					ne.vars[nm.Name] = e.eval(n.Args[ai], sf.ptypes[ai])
+					ai++
+				}
+			}
+			return ne.eval(sf.body, sf.rtype)
+		}
 		var args []*Term
 		ai := 0
 		for i, pt := range sf.ptypes {
@@ -946,7 +1018,7 @@ func (x *Exec) declSpec(sf *SpecFunc) *UFDecl {
 	defer func() { ufOrd++; d.ord = ufOrd }()
 	d.prm = prm
 	d.rec = sf.rec
-	if sf.body != nil {
+	if sf.body != nil && !sf.opaque {
 		v := env.eval(sf.body, sf.rtype)
 		if v.t().sort != rs {
 			efail("spec func %s: body sort %s, want %s", sf.name, v.t().sort.s, rs.s)
